@@ -57,7 +57,7 @@ def one(m):
         finally:
             subprocess.check_call(["git", "-C", "/repo", "checkout", "--", "."])
         return m, row
-    S = "/tmp/seedrun/%s-%s" % (sdir, m)
+    S = "/tmp/seedrun/%s-%s-%d" % (sdir, m, os.getpid())
     shutil.rmtree(S, ignore_errors=True)
     os.makedirs(S)
     try:
